@@ -5,6 +5,10 @@ import (
 	"fmt"
 	"math/rand"
 	"strconv"
+
+	"google.golang.org/protobuf/proto"
+
+	"github.com/smart-core-os/sc-api/go/types"
 )
 
 // symbols ids are built from: many ids are prefixes of each other; multi-byte runes check that the
@@ -65,7 +69,7 @@ func genPageSize(r *rand.Rand) int32 {
 // corruptToken derives a hostile token from a valid one.
 func corruptToken(r *rand.Rand, variant, valid string, ids []string) (string, string) {
 	if variant == "waste" {
-		switch r.Intn(9) {
+		switch r.Intn(10) {
 		case 0:
 			return strconv.Itoa(len(ids) + 1 + r.Intn(5)), "index>n"
 		case 1:
@@ -82,11 +86,46 @@ func corruptToken(r *rand.Rand, variant, valid string, ids []string) (string, st
 			return " " + valid, "space"
 		case 7:
 			return strconv.Itoa(r.Intn(len(ids) + 1)), "index-in-range"
+		case 8: // a token of the OTHER kind of lister: base64 of a PageToken
+			return encodeKeyToken(genID(r)), "key-token"
 		default:
-			return "0x10", "hex"
+			return []string{"0x10", "1e2", "1_0", "٣", "", "0 ", "-0", "007"}[r.Intn(8)], "odd-number"
 		}
 	}
 	b := []byte(valid)
+	if r.Intn(3) == 0 {
+		// well-formed or nearly well-formed protobuf / base64 variations
+		raw, _ := base64.StdEncoding.DecodeString(valid)
+		switch r.Intn(9) {
+		case 0: // the other member of the oneof: decodes, no last_resource_name
+			pb, _ := proto.Marshal(&types.PageToken{PageStart: &types.PageToken_LastOffset{LastOffset: int32(r.Intn(100))}})
+			return base64.StdEncoding.EncodeToString(pb), "oneof-last-offset"
+		case 1: // unknown fields after the key (skipped by proto.Unmarshal)
+			extra := [][]byte{{0x18, 0x07}, {0x22, 0x02, 'h', 'i'}, {0x2d, 1, 2, 3, 4}, {0x31, 1, 2, 3, 4, 5, 6, 7, 8}}[r.Intn(4)]
+			return base64.StdEncoding.EncodeToString(append(append([]byte{}, raw...), extra...)), "unknown-field"
+		case 2: // the key field twice: the last one wins
+			k2, _ := proto.Marshal(&types.PageToken{PageStart: &types.PageToken_LastResourceName{LastResourceName: genID(r)}})
+			return base64.StdEncoding.EncodeToString(append(append([]byte{}, raw...), k2...)), "repeated-field"
+		case 3: // key then last_offset: the oneof now holds the offset
+			k2, _ := proto.Marshal(&types.PageToken{PageStart: &types.PageToken_LastOffset{LastOffset: 3}})
+			return base64.StdEncoding.EncodeToString(append(append([]byte{}, raw...), k2...)), "oneof-overwritten"
+		case 4: // a token of the OTHER kind of lister: a decimal index
+			return strconv.Itoa(r.Intn(2000)), "index-token"
+		case 5: // URL-safe alphabet
+			return base64.URLEncoding.EncodeToString(raw), "url-alphabet"
+		case 6: // no padding
+			return base64.RawStdEncoding.EncodeToString(raw), "raw-no-padding"
+		case 7: // line breaks inside the text (Go's decoder ignores \r and \n)
+			if len(valid) > 2 {
+				i := 1 + r.Intn(len(valid)-1)
+				return valid[:i] + "\n" + valid[i:], "embedded-newline"
+			}
+			return valid + "\r\n", "embedded-newline"
+		default: // the key is not valid UTF-8: proto.Unmarshal refuses a string field like that
+			bad := append([]byte{0x12, 2}, 0xff, 0xfe)
+			return base64.StdEncoding.EncodeToString(bad), "non-utf8-key"
+		}
+	}
 	switch r.Intn(8) {
 	case 0: // bit flip in the base64 text
 		if len(b) > 0 {
